@@ -21,3 +21,4 @@ def rules(ctx):
     S.tracker_state_rules(ctx)
     S.loop_completeness_rules(ctx)
     S.savepoint_counter_rules(ctx)
+    S.state_writer_rules(ctx)
